@@ -127,7 +127,7 @@ PROPS = {
         "rule": WORLD_RULE, "assumptions": WORLD_ASSUMPTIONS,
     },
     "C20": {
-        "lean_modules": ["Perp.Props.VammGuards", "Perp.Props.EngineGuards"],
+        "lean_modules": ["Perp.Props.VammGuards", "Perp.Props.EngineGuards", "Perp.Props.SatCBase", "Perp.Props.SatCFlow", "Perp.Props.SatCCaps", "Perp.Props.SatC"],
         "runs": lambda tier, seed: world_runs(tier, seed) + [vamm_run(tier, seed, 600, 10000)],
         "rule": WORLD_RULE, "assumptions": WORLD_ASSUMPTIONS,
     },
@@ -144,17 +144,17 @@ PROPS = {
         "rule": WORLD_RULE, "assumptions": WORLD_ASSUMPTIONS,
     },
     "C05": {
-        "lean_modules": ["Perp.Props.EngineGuards", "Perp.Props.EngineMoney", "Perp.Props.WorldInv"],
+        "lean_modules": ["Perp.Props.EngineGuards", "Perp.Props.EngineMoney", "Perp.Props.WorldInv", "Perp.Props.SatCBase", "Perp.Props.SatCFlow", "Perp.Props.SatCMargin", "Perp.Props.SatCWallet", "Perp.Props.SatC"],
         "runs": lambda tier, seed: world_runs(tier, seed),
         "rule": WORLD_RULE, "assumptions": WORLD_ASSUMPTIONS,
     },
     "C06": {
-        "lean_modules": ["Perp.Props.EngineMoney", "Perp.Props.EngineGuards", "Perp.Props.CurveNoFlip"],
+        "lean_modules": ["Perp.Props.EngineMoney", "Perp.Props.EngineGuards", "Perp.Props.CurveNoFlip", "Perp.Props.SatDBase", "Perp.Props.SatDC06", "Perp.Props.SatDWitness", "Perp.Props.SatD"],
         "runs": lambda tier, seed: world_runs(tier, seed, q=1200, qn=8),
         "rule": WORLD_RULE, "assumptions": WORLD_ASSUMPTIONS,
     },
     "C07": {
-        "lean_modules": ["Perp.Props.LiqTwin", "Perp.Props.EngineGuards"],
+        "lean_modules": ["Perp.Props.LiqTwin", "Perp.Props.EngineGuards", "Perp.Props.SatDBase", "Perp.Props.SatDC07", "Perp.Props.SatDWitness", "Perp.Props.SatD"],
         "runs": lambda tier, seed: world_runs(tier, seed, q=1200, qn=8),
         "rule": WORLD_RULE, "assumptions": WORLD_ASSUMPTIONS,
     },
@@ -169,7 +169,7 @@ PROPS = {
         "rule": WORLD_RULE, "assumptions": WORLD_ASSUMPTIONS,
     },
     "C16": {
-        "lean_modules": ["Perp.Props.EngineGuards", "Perp.Props.WorldInv", "Perp.Props.G9Restr", "Perp.Props.WorldMore"],
+        "lean_modules": ["Perp.Props.EngineGuards", "Perp.Props.WorldInv", "Perp.Props.G9Restr", "Perp.Props.WorldMore", "Perp.Props.SatC"],
         "runs": lambda tier, seed: world_runs(tier, seed),
         "rule": WORLD_RULE, "assumptions": WORLD_ASSUMPTIONS,
     },
